@@ -463,8 +463,8 @@ def levels(tier: str) -> list[dict]:
         L.append(dict(label=f'stage/to_clauses/nested-families/clauses<={mk},literals<={mm}', module=M, fn='h_clauses_family', kwargs=dict(maxk=mk, maxm=mm, quick=q), budget_s=bud, required=True, twin=False))
     for nc, nv, ml in ([(1, 2, 2), (2, 2, 2)] if q else [(1, 2, 2), (2, 2, 2), (3, 2, 2)]):
         L.append(dict(label=f'resolution/after-other-clause-lists-on-the-same-prover/clauses={nc},vars={nv},len<={ml}', module=M, fn='h_resolution', kwargs=dict(nclauses=nc, nvars=nv, maxlen=ml, replay=(nc <= 1), history=True), budget_s=bud, required=nc <= 2, twin=False))
-    for nc, nv, ml in ([(1, 2, 2), (2, 2, 2), (3, 2, 2), (2, 3, 2), (4, 2, 2)] if q else [(1, 3, 3), (2, 3, 3), (3, 2, 2), (3, 3, 2), (4, 2, 2)]):
-        L.append(dict(label=f'resolution/clauses={nc},vars={nv},len<={ml}', module=M, fn='h_resolution', kwargs=dict(nclauses=nc, nvars=nv, maxlen=ml, replay=(nc <= 2 and nv <= 2)), budget_s=bud, required=nc <= 4 and nv <= 2, twin=(nc == 2 and nv == 2)))
+    for nc, nv, ml in ([(1, 2, 2), (2, 2, 2), (3, 2, 2), (2, 3, 2), (4, 2, 2), (1, 3, 4)] if q else [(1, 3, 4), (2, 2, 3), (1, 3, 3), (2, 3, 3), (3, 2, 2), (3, 3, 2), (4, 2, 2)]):
+        L.append(dict(label=f'resolution/clauses={nc},vars={nv},len<={ml}', module=M, fn='h_resolution', kwargs=dict(nclauses=nc, nvars=nv, maxlen=ml, replay=(nc <= 2 and nv <= 2)), budget_s=bud, required=(nc <= 4 and nv <= 2) or nc == 1, twin=(nc == 2 and nv == 2 and ml == 2)))
     return L
 
 
